@@ -99,6 +99,10 @@ class IRGen:
         if r < 0.55:
             npdt, _ = self.rng.choice(TENSOR_DTYPES)
             arr = (self.np_rng.integers(0, 5, size=shape)).astype(npdt)
+            if arr.ndim >= 2 and self.maybe(0.35):
+                # a Fortran-contiguous / transposed view (e.g. a transposed weight): same logical array
+                arr = np.asfortranarray(arr) if self.maybe(0.5) else np.ascontiguousarray(arr.T).T
+                self.features.add("fortran_order_tensor")
             return ir.tensor(arr, name=name)
         if r < 0.65:
             self.features.add("string_tensor")
